@@ -153,6 +153,9 @@ MCBytes == {%s}
     ctx.cov['behaviours_replayed'] = summ[0]['behaviours']
     ctx.cov['behaviour_steps'] = summ[0]['steps']
     ctx.cov['evaluations'] += summ[0]['steps']
+    for dv in [x for x in recs if x.get('kind') == 'divergence'][:5]:
+        ctx.warn('MODEL-DIVERGENCE C09 %s' % json.dumps(dv))
+    ctx.cov['divergences'] = ctx.cov.get('divergences', 0) + len([x for x in recs if x.get('kind') == 'divergence'])
     for m in [x for x in recs if x.get('kind') == 'mismatch']:
         ctx.violation('C09:rotation:%s:%s' % (m.get('what'), m.get('op', '')), m,
                       'behaviour %s step %s (%s): model and real telemetry directory differ: %s' % (m.get('id'), m.get('step'), m.get('op'), json.dumps(m)[:600]))
